@@ -14,6 +14,9 @@ claimed={
  "C06":dict(text="Escaper tables read from the replacers' initialisers and proved equal to the statement's escape function for every rune; ScanString's loop proved to implement the spec scan step on a ghost rune stream (kind, rune appended, runes consumed); SMT lemmas over all runes: scan step inverts the escape, escaped text can never terminate or break the literal, consumes exactly the escape; character classes equal the README classes; QuoteString wraps the replaced text in quotes.",
    undecided=["sequence-level statement ScanString(QuoteString(s)) == s is the induction over the per-rune lemmas (paper)","IdentNeedsQuotes equivalence with the bare scan, QuoteIdent segment rule, scanIdent: not yet under contract","strings.Replacer with single-ASCII-byte patterns rewrites rune by rune (trusted)"],
    design="DESIGN.md §3 C06"),
+ "C05":dict(text="reader.read/unread/curr proved against a ghost rune stream under the underlying io.RuneScanner: CR and CRLF folding, end of input counted once, the position recurrence of the statement (line break -> (line+1,0), otherwise one column), ring-buffer replay returns exactly the stored (rune, position) pairs and touches neither the input nor the position; every Scanner function (Scan, scanWhitespace, scanIdent, scanString, scanNumber, scanDigits, ScanRegex, comment skipping, ScanString/ScanBareIdent/ScanDelimited through the io.RuneScanner interface with modular dynamic dispatch) keeps the 3-slot ring within bounds (pushback depth <= 3 for all inputs) and returns as token position the position of the next rune to be delivered.",
+   undecided=["token extents / tiling (literal text of each token equals the runes consumed) and termination of the scanner loops are not under contract","*reader used through io.RuneScanner is assumed to behave as a rune stream (ReadRune = read, UnreadRune = unread)","input without NUL runes (property's own restriction) is a pre-condition of Scan","position increments are stated modulo 2^64","known finding F-C05-1: STRING/BADSTRING start one column early"],
+   design="DESIGN.md §3 C05"),
  "C09":dict(text="Each reduceBinaryExpr<Kind>LHS function (boolean, integer, unsigned, float, string left operands) is proved, for every operator and every well-typed literal right operand and all operand values, to return either a literal whose value equals what the evaluator's evalBinaryExpr computes for the unfolded node (the real evaluator body is symbolically executed as the specification, integer division as float division) or a node with the same operator; ValuerEval.Eval on literals returns the literal's value.",
    undecided=["AND/OR short cuts of reduceBinaryExpr with a non-literal operand, reduceCall/reduceVarRef/reduceParenExpr, idempotence of Reduce, time and duration cells: not yet under contract","composition over whole expression trees is the induction over nodes (paper)","float operations are uninterpreted functions (both sides must apply the same operation to the same operands)","known finding F-C09-1: strings that look like time literals"],
    design="DESIGN.md §3 C09"),
